@@ -26,6 +26,8 @@ type RIBMon struct {
 	// CheckHeld / CheckRefs enable the hooked-state comparisons.
 	CheckHeld bool
 	CheckRefs bool
+	// LastOks / LastFails are the verdict ids of the most recent Do.
+	LastOks, LastFails []uint64
 }
 
 // NewRIBMon builds a RIB with the space's network instances and its model.
@@ -70,6 +72,7 @@ func Apply(r *rib.RIB, spec gen.OpSpec) (oks, fails []uint64, err error) {
 func (x *RIBMon) Do(spec gen.OpSpec) (*model.StepResult, []string) {
 	x.Trace = append(x.Trace, spec.String())
 	oks, fails, err := Apply(x.R, spec)
+	x.LastOks, x.LastFails = oks, fails
 	if err != nil {
 		// RIB-level fatal error: acceptable only where the model demands failure.
 		exp, why := x.M.Classify(spec)
@@ -244,4 +247,13 @@ func (x *RIBMon) CompareGet() []string {
 	}
 	out = append(out, diffProblems("get", x.M.Contents(), got)...)
 	return out
+}
+
+// SplitSig splits a "signature|text" problem.
+func SplitSig(p string) (string, string) {
+	i := strings.Index(p, "|")
+	if i < 0 {
+		return p, p
+	}
+	return p[:i], p[i+1:]
 }
